@@ -189,17 +189,17 @@ def run_so21(inp):
     iso = H.sl2_iso(A.copy())
     out = {"S": tolist(S), "iso": tolist(np.swapaxes(np.asarray(iso.proj_data), -1, -2)),
            "iso_list": tolist(np.swapaxes(np.asarray(H.sl2_iso(A.tolist()).proj_data), -1, -2))}
-    if not inp["shape"]:
-        out["pgl"] = tolist(lie.o_to_pgl(np.asarray(S)))
-        out["to_sl2"] = tolist(iso.to_sl2())
-        out["hom_pgl"] = tolist(lie.hom.so21_to_sl2()(np.asarray(S)))
+    # o_to_pgl is documented for arrays of shape (..., 3, 3): single matrices and arrays alike
+    out["pgl"] = tolist(lie.o_to_pgl(np.asarray(S)))
+    out["to_sl2"] = tolist(iso.to_sl2())
+    out["hom_pgl"] = tolist(lie.hom.so21_to_sl2()(np.asarray(S)))
     return out
 
 
 def lean_so21(inp, obs):
     ops = [{"op": "c17.so21", "A": a} for a in inp["A"]]
-    if not inp["shape"]:
-        A = [[F(x) for x in r] for r in inp["A"][0]]
+    for a in inp["A"]:
+        A = [[F(x) for x in r] for r in a]
         ops.append({"op": "c17.o_to_pgl", "S": Q.enc(so21_exact(A))})
     return ops
 
@@ -229,14 +229,18 @@ def judge_so21(inp, obs, lr):
                 return {"expected": "model answer", "observed": r, "tags": dict(tags0, driver_err=r["err"])}
             if not same(S[u], Q.decf(r["ok"])):
                 return {"expected": r["ok"], "observed": S[u].tolist(), "tags": dict(tags0, site=k, unit=u)}
-    if not inp["shape"]:
-        r = lr[cnt]
+    for k in ("pgl", "to_sl2", "hom_pgl"):
+        if "object_dtype" in obs[k] or list(toarr(obs[k]).shape) != inp["shape"] + [2, 2]:
+            return {"expected": inp["shape"] + [2, 2], "observed": obs[k] if "object_dtype" in obs[k] else list(toarr(obs[k]).shape),
+                    "tags": dict(tags0, site=k + "_shape"), "property_failure": True}
+    for u in range(cnt):
+        r = lr[cnt + u]
         if "err" in r:
             return {"expected": "model answer", "observed": r, "tags": dict(tags0, driver_err=r["err"])}
         mA = Q.decf(r["ok"]["A"])
-        A = C.dec(inp["A"], "Q")[0]
+        A = C.dec(inp["A"], "Q")[u]
         for k in ("pgl", "to_sl2", "hom_pgl"):
-            got = toarr(obs[k])
+            got = toarr(obs[k]).reshape((-1, 2, 2))[u]
             if not pm_same(got, mA):
                 # model (repaired extraction) and implementation disagree: is the property itself violated?
                 viol = not pm_same(got, A)
@@ -667,10 +671,13 @@ def run_pgl(inp):
     rmA = np.asarray(lie.o_to_pgl(-SA))
     # bilinear_form=None: the argument is already in the Killing basis, i.e. it is sl2_irrep(A, 3)
     rN = np.asarray(lie.o_to_pgl(np.asarray(lie.sl2_irrep(A, 3)), bilinear_form=None))
+    rS = np.asarray(lie.o_to_pgl(np.array([[SA, SB], [SA @ SB, -SA]])))          # an array of shape (2, 2, 3, 3)
+    rIS = np.asarray(H.sl2_iso(np.array([A, B])).to_sl2())
     rmAB = np.asarray(lie.o_to_pgl((-SA) @ SB))
     return {"rA": rA.tolist(), "rB": rB.tolist(), "rAB": rAB.tolist(), "to_sl2": r2.tolist(),
             "rmA": rmA.tolist(), "rmAB": rmAB.tolist(), "rN": rN.tolist(),
-            "from_to_sl2": r3.tolist(), "hom_so21_to_sl2": r4.tolist()}
+            "from_to_sl2": r3.tolist(), "hom_so21_to_sl2": r4.tolist(),
+            "stack": rS.tolist() if rS.shape == (2, 2, 2, 2) else list(rS.shape), "iso_stack": rIS.tolist() if rIS.shape == (2, 2, 2) else list(rIS.shape)}
 
 
 def pm_err(X, Y):
@@ -691,6 +698,14 @@ def judge_pgl(inp, obs, lr):
                     "tags": dict(tags0, site="recover_" + k, returns_PAP=bool(finite(obs[k]) and pm_err(obs[k], PAP) <= 1e-6))}
     if pm_err(obs["rAB"], np.array(obs["rA"]) @ np.array(obs["rB"])) > 1e-6:
         return {"expected": "o_to_pgl(S·T) = ± o_to_pgl(S)·o_to_pgl(T)", "observed": obs, "tags": dict(tags0, site="hom_up_to_sign")}
+    want = [[A, B], [A @ B, A]]
+    st = np.array(obs["stack"])
+    if st.shape != (2, 2, 2, 2) or any(pm_err(st[i][j], want[i][j]) > 1e-6 for i in range(2) for j in range(2)):
+        return {"expected": "o_to_pgl on an array of shape (2,2,3,3): ±A, ±B, ±AB, ±A unit by unit", "observed": obs["stack"],
+                "tags": dict(tags0, site="array")}
+    ist = np.array(obs["iso_stack"])
+    if ist.shape != (2, 2, 2) or pm_err(ist[0], A) > 1e-6 or pm_err(ist[1], B) > 1e-6:
+        return {"expected": "sl2_iso(stack).to_sl2() = ±A, ±B unit by unit", "observed": obs["iso_stack"], "tags": dict(tags0, site="iso_array")}
     if not finite(obs["rN"]) or pm_err(obs["rN"], A) > 1e-6:
         return {"expected": {"o_to_pgl(sl2_irrep(A,3), bilinear_form=None) = ±A": A.tolist()}, "observed": obs["rN"],
                 "tags": dict(tags0, site="form_none")}
@@ -968,6 +983,239 @@ def judge_iso(inp, obs, lr):
     return None
 
 
+# ------------------------------------------------------------------------------------------------
+# Isometry objects with a history (sl2_iso / from_sl2, products, inverses, set(), item assignment, copies): to_sl2 of the
+# object must be ± the matrix the harness tracked and ± to_sl2 of a FRESH Isometry built from the object's current data
+# ------------------------------------------------------------------------------------------------
+from copy import copy as _shallow
+
+
+def gen_isohist(rng, n):
+    for _ in range(n):
+        steps = []
+        for _ in range(rng.randint(2, 6)):
+            steps.append({"op": rng.choice(["mul_right", "mul_left", "inv", "set", "setitem", "copy_then_set", "query"]),
+                          "M": enc_c(fsl2(rng, False, rng.choice(["sl2", "zero", "locus"]))),
+                          "ctor": rng.choice(["sl2_iso", "from_sl2", "list"])})
+        yield {"A": enc_c(fsl2(rng, False, rng.choice(["sl2", "zero", "locus"]))), "ctor": rng.choice(["sl2_iso", "from_sl2", "list"]),
+               "steps": steps}
+
+
+def _mk_iso(M, ctor):
+    if ctor == "from_sl2":
+        return H.Isometry.from_sl2(M.copy())
+    if ctor == "list":
+        return H.sl2_iso(M.tolist())
+    return H.sl2_iso(M.copy())
+
+
+def run_isohist(inp):
+    A = toarr(inp["A"])
+    iso = _mk_iso(A, inp["ctor"])
+    cur = A.copy()                      # the tracked lift, up to sign
+    bad = []
+    copies = []
+    def differential(obj, lift, what):
+        got = np.asarray(obj.to_sl2())
+        fresh = np.asarray(H.Isometry(np.array(np.asarray(obj.proj_data), copy=True)).to_sl2())
+        sc = 1 + float(np.max(np.abs(lift)))
+        if pm_err(got, lift) > 1e-6 * sc:
+            bad.append([what, "to_sl2 is not ± the tracked matrix", got.tolist(), lift.tolist()])
+        elif pm_err(got, fresh) > 1e-6 * sc:
+            bad.append([what, "to_sl2 differs from a fresh Isometry with the same data", got.tolist(), fresh.tolist()])
+    iso.to_sl2()
+    differential(iso, cur, "construction (%s)" % inp["ctor"])
+    for i, st in enumerate(inp["steps"]):
+        M = toarr(st["M"])
+        op = st["op"]
+        # keep the history well conditioned: cond(sl2_to_so21(A)) grows like |A|^4, and inv / sqrt then lose digits legitimately
+        if op in ("mul_right", "mul_left") and max(np.max(np.abs(cur @ M)), np.max(np.abs(M @ cur))) > 12:
+            op = "set"
+        what = "step %d: %s" % (i, op)
+        if op == "mul_right":           # (X @ Y).proj_data = Y.data · X.data, i.e. the lift of X @ Y is lift(X)·lift(Y)
+            other = _mk_iso(M, st["ctor"])
+            other.to_sl2()
+            iso = iso @ other
+            cur = cur @ M
+        elif op == "mul_left":
+            other = _mk_iso(M, st["ctor"])
+            other.to_sl2()
+            iso = other @ iso
+            cur = M @ cur
+        elif op == "inv":
+            iso = iso.inv()
+            cur = np.linalg.inv(cur)
+        elif op == "set":
+            iso.set(np.asarray(_mk_iso(M, "sl2_iso").proj_data).copy())
+            cur = M.copy()
+        elif op == "setitem":
+            iso[...] = _mk_iso(M, st["ctor"])
+            cur = M.copy()
+        elif op == "copy_then_set":
+            copies.append((_shallow(iso), cur.copy(), "shallow copy taken before set()"))
+            copies.append((H.Isometry(iso), cur.copy(), "constructor copy taken before set()"))
+            iso.set(np.asarray(_mk_iso(M, "sl2_iso").proj_data).copy())
+            cur = M.copy()
+        differential(iso, cur, what)
+        if len(bad) >= 2:
+            break
+    for obj, lift, label in copies:
+        differential(obj, lift, label)
+    return {"bad": bad[:2]}
+
+
+def judge_isohist(inp, obs, lr):
+    tags0 = {"history": True, "object": "Isometry"}
+    if "exc" in obs:
+        return {"expected": "every step of the history succeeds", "observed": obs, "tags": dict(tags0, exc=obs["exc"])}
+    if obs["bad"]:
+        return {"expected": "to_sl2 of an Isometry with a history = ± the product the history describes = ± to_sl2 of a fresh Isometry",
+                "observed": obs["bad"], "tags": dict(tags0, site=obs["bad"][0][1])}
+    return None
+
+
+# ------------------------------------------------------------------------------------------------
+# every optional keyword argument of every mapped function (enumerated from the signatures), supplied explicitly in a dtype
+# that is independent of the main argument's dtype; references are the independent formulas above
+# ------------------------------------------------------------------------------------------------
+import inspect
+
+KW_FUNCS = {"gln_adjoint": lie.gln_adjoint, "sln_adjoint": lie.sln_adjoint, "sl2c_to_so31": lie.sl2c_to_so31,
+            "sl2c_herm_action": lie.sl2c_herm_action, "o_to_pgl": lie.o_to_pgl, "slc_to_slr": lie.slc_to_slr,
+            "hom.gln_adjoint": lie.hom.gln_adjoint(), "hom.sln_adjoint": lie.hom.sln_adjoint(),
+            "hom.sl2_irrep": lie.hom.sl2_irrep(3), "hom.sl2_to_so21": lie.hom.sl2_to_so21()}
+KW_DTYPES = ["int64", "int32", "float32", "float64", "complex128"]
+
+
+def optional_params(fn):
+    sig = inspect.signature(fn)
+    names = [p.name for p in sig.parameters.values() if p.default is not inspect.Parameter.empty]
+    if any(p.kind == inspect.Parameter.VAR_KEYWORD for p in sig.parameters.values()):
+        # what the **kwargs are forwarded to: `like=` (dtype donor) — except slc_to_slr, which fixes like=mat itself and
+        # forwards the rest to utils.zeros (dtype=)
+        names.append("dtype" if getattr(fn, "__name__", "") == "slc_to_slr" else "like")
+    return names
+
+
+def gen_kw(rng, n):
+    combos = [(f, kw) for f, fn in KW_FUNCS.items() for kw in optional_params(fn)]
+    for _ in range(n):
+        f, kw = rng.choice(combos)
+        yield {"fn": f, "kw": kw, "kw_dtype": rng.choice(KW_DTYPES), "main_dtype": rng.choice(["float64", "int64", "float32", "complex128"]),
+               "k": rng.choice([2, 2, 3]), "seed": rng.randrange(10 ** 9)}
+
+
+def run_kw(inp):
+    r = np.random.default_rng(inp["seed"])
+    f, kw, kd, md, k = inp["fn"], inp["kw"], inp["kw_dtype"], inp["main_dtype"], inp["k"]
+    fn = KW_FUNCS[f]
+    base = f.split(".")[-1]
+    out = {"skipped": False}
+    def intmat(kk, unimodular):
+        while True:
+            N = r.integers(-3, 4, size=(kk, kk))
+            d = round(np.linalg.det(N))
+            if d != 0 and (abs(d) == 1) == unimodular:
+                return N.astype(np.int64)
+    if base in ("gln_adjoint", "sln_adjoint"):
+        ref_f = ref_gln if base == "gln_adjoint" else ref_sln
+        if kw == "inv":
+            # an inverse that is exactly representable in EVERY dtype (an integer matrix N), for a main argument mat = N^-1
+            # that is not integral, and the other way round (integer mat, its float inverse)
+            N = intmat(k, unimodular=bool(r.integers(0, 2)))
+            if r.integers(0, 2):
+                mat, inv = np.linalg.inv(N), N.astype(kd)
+                if md == "complex128":
+                    mat = mat.astype(complex)
+                elif md == "float32":
+                    mat = mat.astype(np.float32)
+            else:
+                mat = N.astype(md)
+                inv = np.linalg.inv(N)
+                inv = inv.astype(kd) if kd in ("float64", "complex128") else inv
+            ms, is_ = mat.copy(), inv.copy()
+            got = np.asarray(fn(mat, inv=inv))
+            ref = ref_f(np.asarray(ms).astype(complex))
+            out["arg_changed"] = not (np.array_equal(mat, ms) and np.array_equal(inv, is_))
+        elif kw == "like":
+            if kd in ("int64", "int32"):
+                return {"skipped": True}           # an integer `like` asks for an integer result: nothing to compare
+            mat = fgl(r_py(r), k, md == "complex128").astype(md if md != "int64" else "float64")
+            if kd != "complex128" and np.iscomplexobj(mat):
+                return {"skipped": True}           # a real `like` for complex data asks for a real result
+            got = np.asarray(fn(mat, like=np.zeros(1, dtype=kd)))
+            ref = ref_f(mat.astype(complex))
+        else:
+            return {"skipped": True}
+    elif base in ("sl2c_to_so31", "sl2c_herm_action"):
+        M = fsl2(r_py(r), True, "sl2")
+        kwargs = {}
+        if kw == "like":
+            kwargs["like"] = np.zeros(1, dtype=kd)
+        elif kw == "force_real":
+            kwargs["force_real"] = bool(r.integers(0, 2))
+        else:
+            return {"skipped": True}
+        got = np.asarray(fn(M, **kwargs))
+        if base == "sl2c_to_so31":
+            ref = ref_so31(M)
+        else:
+            B2 = np.array([[1., -1, 0, 0], [1, 1, 0, 0], [0, 0, 1, 0], [0, 0, 0, 1]])
+            ref = B2 @ ref_so31(M) @ np.linalg.inv(B2)
+    elif base == "o_to_pgl":
+        A = fsl2(r_py(r), False, "locus" if r.integers(0, 2) else "sl2")
+        S = np.asarray(lie.sl2_to_so21(A))
+        got = np.asarray(fn(S, bilinear_form=np.diag([-1, 1, 1]).astype(kd)))
+        out["pm"] = True
+        ref = A
+    elif base == "slc_to_slr":
+        Zm = fgl(r_py(r), k, True)
+        if kd in ("int64", "int32"):
+            return {"skipped": True}               # an integer dtype asks for an integer result
+        got = np.asarray(fn(Zm, dtype=np.dtype(kd)))
+        ref = ref_slr(Zm)
+    elif base in ("sl2_irrep", "sl2_to_so21"):
+        A = fsl2(r_py(r), False, "sl2")
+        Ai = np.linalg.inv(A)
+        got = np.asarray(fn(A, inv=Ai.astype(kd) if kd in ("float64", "complex128") else np.round(Ai).astype(kd)))   # ignored by these maps
+        ref = ref_irrep(A, 3) if base == "sl2_irrep" else ref_so21(A)
+    else:
+        return {"skipped": True}
+    if got.dtype == object:
+        out["object_dtype"] = True
+        return out
+    tol_scale = 1e4 if "float32" in (kd, md) else 1.0
+    if out.get("pm"):
+        e = pm_err(got, ref) / 100
+    else:
+        e = float("inf") if got.shape != ref.shape else float(np.max(np.abs(got - ref)) / (1 + np.max(np.abs(ref))))
+    out["err"] = e / tol_scale
+    out["dtype"] = str(got.dtype)
+    return out
+
+
+def r_py(r):
+    """a python `random.Random` seeded from a numpy generator (the matrix helpers above take the former)"""
+    import random
+    return random.Random(int(r.integers(0, 2 ** 31)))
+
+
+def judge_kw(inp, obs, lr):
+    tags0 = {"fn": inp["fn"], "kw": inp["kw"], "kw_dtype": inp["kw_dtype"], "main_dtype": inp["main_dtype"]}
+    if "exc" in obs:
+        return {"expected": "a value", "observed": obs, "tags": dict(tags0, exc=obs["exc"])}
+    if obs.get("skipped"):
+        return None
+    if obs.get("object_dtype"):
+        return {"expected": "numeric array", "observed": "object dtype", "tags": dict(tags0, object_dtype=True)}
+    if obs.get("arg_changed"):
+        return {"expected": "arguments untouched", "observed": obs, "tags": dict(tags0, site="argument")}
+    if not obs["err"] <= 1e-8:
+        return {"expected": "the value of the independent reference, whatever dtype the optional argument is given in",
+                "observed": obs, "tags": dict(tags0, site="value")}
+    return None
+
+
 def gen_pglform(rng, n):
     for _ in range(n):
         kind = rng.choice(["diag", "generic", "orthogonal"])
@@ -994,7 +1242,8 @@ def run_pglform(inp):
     rA = np.asarray(lie.o_to_pgl(SA, bilinear_form=form))
     rB = np.asarray(lie.o_to_pgl(SB, bilinear_form=form))
     rAB = np.asarray(lie.o_to_pgl(SA @ SB, bilinear_form=form))
-    return {"preserved": float(np.max(np.abs(SA.T @ form @ SA - form))), "rA": rA.tolist(), "rB": rB.tolist(), "rAB": rAB.tolist(),
+    rH = np.asarray(lie.hom.so21_to_sl2(bilinear_form=form)(SA))       # the wrapper must forward its keyword
+    return {"hom_wrapper": pm_err(rH, rA), "preserved": float(np.max(np.abs(SA.T @ form @ SA - form))), "rA": rA.tolist(), "rB": rB.tolist(), "rAB": rAB.tolist(),
             "detA": float(np.linalg.det(rA)), "trA": float(abs(np.trace(rA))), "want_tr": float(abs(np.trace(A))),
             "cond": float(np.linalg.cond(Pm))}
 
@@ -1009,6 +1258,9 @@ def judge_pglform(inp, obs, lr):
     if abs(obs["trA"] - obs["want_tr"]) > tol * (1 + obs["want_tr"]):
         return {"expected": "|trace| of A (A is recovered up to sign and conjugation by the isometry between the forms)",
                 "observed": obs, "tags": dict(tags0, site="trace")}
+    if obs["hom_wrapper"] > 1e-9:
+        return {"expected": "lie.hom.so21_to_sl2(bilinear_form=B)(S) = ± o_to_pgl(S, bilinear_form=B)", "observed": obs,
+                "tags": dict(tags0, site="hom_wrapper_keyword")}
     if pm_err(obs["rAB"], np.array(obs["rA"]) @ np.array(obs["rB"])) > tol * 10:
         return {"expected": "o_to_pgl(S·T, B) = ± o_to_pgl(S, B)·o_to_pgl(T, B)", "observed": obs, "tags": dict(tags0, site="hom_up_to_sign")}
     return None
@@ -1159,7 +1411,7 @@ CLAUSES = [
            what="sl2_irrep(A, n) and hom.sl2_irrep(n)(A), n = 1..6, ℚ and ℚ(i), single matrices and arrays (shapes rank 0-2), "
                 "SL(2), det -1, general invertible, zero entries — vs the model's general-n formula executed exactly"),
     Clause("so21_corr", "corr", gen_so21, run_so21, judge_so21, lean=lean_so21, site="lie.sl2_to_so21/o_to_pgl, hyperbolic.sl2_iso/to_sl2",
-           budget={"quick": 120, "thorough": 3000},
+           budget={"quick": 70, "thorough": 2000},
            what="sl2_to_so21 (arrays), sl2_iso (arrays, list input), o_to_pgl / hom.so21_to_sl2 / Isometry.to_sl2 on exact-ℚ matrices "
                 "incl. vanishing entries and det -1 — vs the model (repaired extraction; the pinned extraction is reported alongside)"),
     Clause("adjoint_corr", "corr", gen_adj, run_adj, judge_adj, lean=lean_adj, site="lie.gln_adjoint/sln_adjoint/sln_killing_form",
@@ -1180,6 +1432,15 @@ CLAUSES = [
            budget={"quick": 400, "thorough": 10000},
            what="f(A·B) = f(A)·f(B), f(1) = 1 for every map (irrep n=1..6, so21, gln/sln adjoint n=2..6, slc_to_slr, block_include, "
                 "sl2c_to_so31; direct and via lie.hom), single matrices and arrays of matrices, arrays = unit-by-unit"),
+    Clause("isometry_history_oracle", "oracle", gen_isohist, run_isohist, judge_isohist, site="hyperbolic.sl2_iso / Isometry.to_sl2 (histories)",
+           budget={"quick": 250, "thorough": 5000},
+           what="Isometry objects built by sl2_iso / from_sl2 (arrays, lists) with a history of products on either side, inverses, set(), item "
+                "assignment, copies taken before a re-set: to_sl2 = ± the tracked product = ± to_sl2 of a fresh Isometry with the same data"),
+    Clause("kwargs_oracle", "oracle", gen_kw, run_kw, judge_kw, site="lie.* optional arguments",
+           budget={"quick": 300, "thorough": 6000},
+           what="every optional keyword argument found in the signatures of the mapped functions (inv=, like= via **kwargs, force_real=, "
+                "bilinear_form=; lie.hom wrappers' inv=) supplied explicitly in int64/int32/float32/float64/complex128 independently of the "
+                "main argument's dtype (e.g. an exactly integral inv= for a non-integral float matrix), against independent references"),
     Clause("isolation_oracle", "oracle", gen_iso, run_iso, judge_iso, site="lie.* / lie.hom.* (histories)",
            budget={"quick": 150, "thorough": 3000},
            what="generic defences G2-G4: histories of 4-8 calls of different Lie maps / n / dtypes (float64, complex128, int64, "
